@@ -9,7 +9,7 @@ CHECK = {
     "rule": ("sub 'kkt' (85 %): LPs / convex QPs (Q = D'D, rank 0..n) with n in 1..12, 0..n-1 equalities, 1..2n+2 inequalities whose optimum "
              "(x*,u*,v*) is fixed by KKT construction (random active sets incl. degenerate vertices and weakly active rows, row magnitudes "
              "1e-2..1e2, optional box/simplex bounding rows so bounded and unbounded optimal faces both occur), default start or a strictly "
-             "feasible start built by construction; sub 'small' (15 %): arbitrary integer programs n<=3, m<=6, p<=2, coefficients -5..5 "
+             "feasible start built by construction; sub 'small' (15 %): arbitrary integer programs n<=3, m<=6 (12 %: m=0, no inequality at all: the solver's direct KKT solve), p<=2, coefficients -5..5 "
              "(LP or positive definite QP), status and optimum decided by an exact rational oracle (Fourier-Motzkin with equality pivots / "
              "active-set enumeration, every answer re-verified by an exact certificate). 30 % of the cases are solved a second time under an "
              "equivalent restatement (duplicated / linearly combined equality rows, rescaled inequality rows / objective / equality rows, "
